@@ -50,6 +50,10 @@ def parked(job):
                     if run.parked:
                         C["rest_points_with_waiting_actions"] = C.get("rest_points_with_waiting_actions", 0) + 1
                         out["sets"].setdefault("status_at_rest_with_waiting_actions", set()).add(run.status())
+                        if run.status() == "paused" and h64(seed, sched, run.step, "cx") % 100 < job.get("cancel_at_rest", 0):
+                            # the workflow is canceled while the action waits: it is canceled at once, the answer comes late
+                            run.request(["canceling", "canceled"][h64(seed, sched, run.step) % 2])
+                            C["cancels_while_waiting"] = C.get("cancels_while_waiting", 0) + 1
                         run.unpark(h64(seed, sched, run.step) % len(run.parked))
                         continue
                     if run.status() == "paused" and not run.ctl["pause_req"]:
